@@ -99,7 +99,7 @@ class Run:
         import pickle
         ok, rep = False, -1
         try:
-            ws = await self.w.websockets.connect("ws://127.0.0.1:%d" % self.w.port, max_size=None)
+            ws = await self.w.websockets.unix_connect(self.w.sock, max_size=None)
             await ws.send(pickle.dumps({"type": "init", "sid": self.sid}))
             m = pickle.loads(await asyncio.wait_for(ws.recv(), 3))
             c = pickle.loads(m["content"])
@@ -213,6 +213,7 @@ class Run:
                 p.kill()
                 raise MachineryError("server child did not start: %r" % line)
             self.w.global_config.ClientConfig.SERVER_URI = "ws://127.0.0.1:%d" % int(line.split()[1])
+            self.w.use_tcp = True        # the child serves on a TCP port
             self.w.cproxy.cap = 3
             t = asyncio.ensure_future(self.w.client_op(handler, self.sid, None, keep=True))
             while p.poll() is None and not t.done():
@@ -229,6 +230,7 @@ class Run:
             self.child_rc = p.wait()
             await self.w.drop_client(persist=True)
             self.w.cproxy.cap = 30
+            self.w.use_tcp = False
             await self.w.start_server()
         self.ev.append({"e": "crash", "comp": comp_name, "h": handler})
         self.snap_after_crash = dirsnap(self.w.sdir if comp_name == "server" else self.w.cdir)
